@@ -34,12 +34,15 @@ type MV struct {
 }
 
 type reflector struct {
-	ctx px.Context
-	ids map[px.Value]int
-	n   int
+	ctx  px.Context
+	ids  map[px.Value]int
+	memo map[px.Value]*MV
+	n    int
 }
 
-func newReflector(ctx px.Context) *reflector { return &reflector{ctx: ctx, ids: map[px.Value]int{}} }
+func newReflector(ctx px.Context) *reflector {
+	return &reflector{ctx: ctx, ids: map[px.Value]int{}, memo: map[px.Value]*MV{}}
+}
 
 // id gives the identity class of v as a key of `map[px.Value]int` (serializer.go:32): Go interface
 // equality, i.e. pointer identity for pointer kinds and content for value kinds (Timespan).
@@ -79,7 +82,25 @@ func (r *reflector) typeImage(t px.Type) *MV {
 	return r.toModel(t)
 }
 
+// toModel reflects v; a value of an identity class met before is the SAME term (same inner tags): the
+// serializer never descends twice into one identity class when it de-duplicates, and ignores identities
+// when it does not - whereas InitHash() of an object or type builds a fresh hash on every call.
 func (r *reflector) toModel(v px.Value) *MV {
+	switch v.(type) {
+	case nil, *types.UndefValue, px.Integer, px.Float, px.Boolean, px.StringValue, *types.DefaultValue:
+		return r.toModel0(v)
+	}
+	if m, ok := r.memo[v]; ok {
+		return m
+	}
+	m := r.toModel0(v)
+	if m.Id != 0 {
+		r.memo[v] = m
+	}
+	return m
+}
+
+func (r *reflector) toModel0(v px.Value) *MV {
 	if v == nil {
 		return &MV{C: "VUndef"}
 	}
